@@ -112,6 +112,8 @@ package analysis
 //@   ensures forall id string :: old(id in dom(opIDs)) ==> id in dom(opIDs)
 //@   ensures forall id in dom(opIDs) :: opIDs[id] || old(id in dom(opIDs))
 //@   ensures m.Paths != nil ==> forall k in dom(m.Paths.Paths) :: !old(k in dom(primary.Paths.Paths)) ==> forall o *spec.Operation :: isOpOf(m.Paths.Paths[k], o) && o.ID != "" ==> o.ID in dom(opIDs)
+//@   ensures m.Paths != nil ==> len(skipped) == cardInter(dom(m.Paths.Paths), old(dom(primary.Paths.Paths)))
+//@   ensures m.Paths == nil ==> len(skipped) == 0
 //@   loop 1: modifies map primary.Paths.Paths, map opIDs, heap spec.Operation
 //@   loop 1: invariant forall k string :: (k in dom(primary.Paths.Paths)) <==> (old(k in dom(primary.Paths.Paths)) || k in seen)
 //@   loop 1: invariant forall k in seen :: k in dom(m.Paths.Paths)
@@ -124,6 +126,7 @@ package analysis
 //@   loop 1: invariant forall id string :: old(id in dom(opIDs)) ==> id in dom(opIDs)
 //@   loop 1: invariant forall id in dom(opIDs) :: opIDs[id] || old(id in dom(opIDs))
 //@   loop 1: invariant forall k in seen :: !old(k in dom(primary.Paths.Paths)) ==> forall o *spec.Operation :: isOpOf(m.Paths.Paths[k], o) && o.ID != "" ==> o.ID in dom(opIDs)
+//@   loop 1: invariant len(skipped) == cardInter(seen, old(dom(primary.Paths.Paths)))
 //@   loop 2: modifies map opIDs, heap spec.Operation
 //@   loop 2: invariant forall o *spec.Operation :: !fresh(o) ==> *o == old(*o) with {ID: o.ID} && idStep(old(o.ID), o.ID, mixIndex)
 //@   loop 2: invariant forall o *spec.Operation :: !fresh(o) && o.ID != old(o.ID) ==> old(o.ID) in dom(opIDs) && o.ID in dom(opIDs)
@@ -133,3 +136,324 @@ package analysis
 //@   loop 2: invariant forall k in seen1 :: k != key1 && !old(k in dom(primary.Paths.Paths)) ==> forall o *spec.Operation :: isOpOf(m.Paths.Paths[k], o) && o.ID != "" ==> o.ID in dom(opIDs)
 //@   loop 2: invariant forall j in idx..len(piops) :: piops[j].ID == old(piops[j].ID)
 //@   loop 2: invariant forall j in 0..idx :: piops[j].ID != "" ==> piops[j].ID in dom(opIDs)
+
+// ---- keyed sections: union, primary wins, one warning per collision (C17)
+
+//@ func mergeDefinitions(primary, m)
+//@   requires primary != nil && m != nil && primary.Definitions != nil && primary.Definitions != m.Definitions
+//@   modifies map primary.Definitions
+//@   ensures forall k string :: (k in dom(primary.Definitions)) <==> (old(k in dom(primary.Definitions)) || k in dom(m.Definitions))
+//@   ensures forall k in dom(primary.Definitions) :: old(k in dom(primary.Definitions)) ==> primary.Definitions[k] == old(primary.Definitions[k])
+//@   ensures forall k in dom(m.Definitions) :: !old(k in dom(primary.Definitions)) ==> primary.Definitions[k] == m.Definitions[k]
+//@   ensures len(skipped) == cardInter(dom(m.Definitions), old(dom(primary.Definitions)))
+//@   loop 1: modifies map primary.Definitions
+//@   loop 1: invariant forall k string :: (k in dom(primary.Definitions)) <==> (old(k in dom(primary.Definitions)) || k in seen)
+//@   loop 1: invariant forall k in seen :: k in dom(m.Definitions)
+//@   loop 1: invariant forall k in dom(primary.Definitions) :: old(k in dom(primary.Definitions)) ==> primary.Definitions[k] == old(primary.Definitions[k])
+//@   loop 1: invariant forall k in seen :: !old(k in dom(primary.Definitions)) ==> primary.Definitions[k] == m.Definitions[k]
+//@   loop 1: invariant len(skipped) == cardInter(seen, old(dom(primary.Definitions)))
+
+//@ func mergeParameters(primary, m)
+//@   requires primary != nil && m != nil && primary.Parameters != nil && primary.Parameters != m.Parameters
+//@   modifies map primary.Parameters
+//@   ensures forall k string :: (k in dom(primary.Parameters)) <==> (old(k in dom(primary.Parameters)) || k in dom(m.Parameters))
+//@   ensures forall k in dom(primary.Parameters) :: old(k in dom(primary.Parameters)) ==> primary.Parameters[k] == old(primary.Parameters[k])
+//@   ensures forall k in dom(m.Parameters) :: !old(k in dom(primary.Parameters)) ==> primary.Parameters[k] == m.Parameters[k]
+//@   ensures len(skipped) == cardInter(dom(m.Parameters), old(dom(primary.Parameters)))
+//@   loop 1: modifies map primary.Parameters
+//@   loop 1: invariant forall k string :: (k in dom(primary.Parameters)) <==> (old(k in dom(primary.Parameters)) || k in seen)
+//@   loop 1: invariant forall k in seen :: k in dom(m.Parameters)
+//@   loop 1: invariant forall k in dom(primary.Parameters) :: old(k in dom(primary.Parameters)) ==> primary.Parameters[k] == old(primary.Parameters[k])
+//@   loop 1: invariant forall k in seen :: !old(k in dom(primary.Parameters)) ==> primary.Parameters[k] == m.Parameters[k]
+//@   loop 1: invariant len(skipped) == cardInter(seen, old(dom(primary.Parameters)))
+
+//@ func mergeResponses(primary, m)
+//@   requires primary != nil && m != nil && primary.Responses != nil && primary.Responses != m.Responses
+//@   modifies map primary.Responses
+//@   ensures forall k string :: (k in dom(primary.Responses)) <==> (old(k in dom(primary.Responses)) || k in dom(m.Responses))
+//@   ensures forall k in dom(primary.Responses) :: old(k in dom(primary.Responses)) ==> primary.Responses[k] == old(primary.Responses[k])
+//@   ensures forall k in dom(m.Responses) :: !old(k in dom(primary.Responses)) ==> primary.Responses[k] == m.Responses[k]
+//@   ensures len(skipped) == cardInter(dom(m.Responses), old(dom(primary.Responses)))
+//@   loop 1: modifies map primary.Responses
+//@   loop 1: invariant forall k string :: (k in dom(primary.Responses)) <==> (old(k in dom(primary.Responses)) || k in seen)
+//@   loop 1: invariant forall k in seen :: k in dom(m.Responses)
+//@   loop 1: invariant forall k in dom(primary.Responses) :: old(k in dom(primary.Responses)) ==> primary.Responses[k] == old(primary.Responses[k])
+//@   loop 1: invariant forall k in seen :: !old(k in dom(primary.Responses)) ==> primary.Responses[k] == m.Responses[k]
+//@   loop 1: invariant len(skipped) == cardInter(seen, old(dom(primary.Responses)))
+
+//@ func mergeSecurityDefinitions(primary, m)
+//@   requires primary != nil && m != nil && primary.SecurityDefinitions != nil && primary.SecurityDefinitions != m.SecurityDefinitions
+//@   modifies map primary.SecurityDefinitions
+//@   ensures forall k string :: (k in dom(primary.SecurityDefinitions)) <==> (old(k in dom(primary.SecurityDefinitions)) || k in dom(m.SecurityDefinitions))
+//@   ensures forall k in dom(primary.SecurityDefinitions) :: old(k in dom(primary.SecurityDefinitions)) ==> primary.SecurityDefinitions[k] == old(primary.SecurityDefinitions[k])
+//@   ensures forall k in dom(m.SecurityDefinitions) :: !old(k in dom(primary.SecurityDefinitions)) ==> primary.SecurityDefinitions[k] == m.SecurityDefinitions[k]
+//@   ensures len(skipped) == cardInter(dom(m.SecurityDefinitions), old(dom(primary.SecurityDefinitions)))
+//@   loop 1: modifies map primary.SecurityDefinitions
+//@   loop 1: invariant forall k string :: (k in dom(primary.SecurityDefinitions)) <==> (old(k in dom(primary.SecurityDefinitions)) || k in seen)
+//@   loop 1: invariant forall k in seen :: k in dom(m.SecurityDefinitions)
+//@   loop 1: invariant forall k in dom(primary.SecurityDefinitions) :: old(k in dom(primary.SecurityDefinitions)) ==> primary.SecurityDefinitions[k] == old(primary.SecurityDefinitions[k])
+//@   loop 1: invariant forall k in seen :: !old(k in dom(primary.SecurityDefinitions)) ==> primary.SecurityDefinitions[k] == m.SecurityDefinitions[k]
+//@   loop 1: invariant len(skipped) == cardInter(seen, old(dom(primary.SecurityDefinitions)))
+
+//@ func mergeExtensions(primary, m)
+//@   requires primary != m || primary == nil
+//@   modifies map primary
+//@   ensures result == (if primary == nil then m else primary)
+//@   ensures primary != nil ==> forall k string :: (k in dom(primary)) <==> (old(k in dom(primary)) || k in dom(m))
+//@   ensures primary != nil ==> forall k in dom(primary) :: old(k in dom(primary)) ==> primary[k] == old(primary[k])
+//@   ensures primary != nil ==> forall k in dom(m) :: !old(k in dom(primary)) ==> primary[k] == m[k]
+//@   ensures primary != nil ==> len(skipped) == cardInter(dom(m), old(dom(primary)))
+//@   ensures primary == nil ==> len(skipped) == 0
+//@   loop 1: modifies map primary
+//@   loop 1: invariant forall k string :: (k in dom(primary)) <==> (old(k in dom(primary)) || k in seen)
+//@   loop 1: invariant forall k in seen :: k in dom(m)
+//@   loop 1: invariant forall k in dom(primary) :: old(k in dom(primary)) ==> primary[k] == old(primary[k])
+//@   loop 1: invariant forall k in seen :: !old(k in dom(primary)) ==> primary[k] == m[k]
+//@   loop 1: invariant len(skipped) == cardInter(seen, old(dom(primary)))
+//@   loop 1: invariant result == primary && primary != nil && m != nil
+
+// ---- list-valued fields: order-preserving de-duplicated union (C17)
+
+//@ fun inStrs(s []string, x string) bool = exists i in 0..len(s) :: s[i] == x
+
+//@ func mergeConsumes(primary, m)
+//@   requires primary != nil && m != nil && primary != m
+//@   modifies primary.Consumes
+//@   ensures len(result) == 0
+//@   ensures len(primary.Consumes) >= old(len(primary.Consumes))
+//@   ensures forall i in 0..old(len(primary.Consumes)) :: primary.Consumes[i] == old(primary.Consumes[i])
+//@   ensures forall i in old(len(primary.Consumes))..len(primary.Consumes) :: inStrs(m.Consumes, primary.Consumes[i])
+//@   ensures forall i in old(len(primary.Consumes))..len(primary.Consumes) :: forall i2 in 0..i :: primary.Consumes[i2] != primary.Consumes[i]
+//@   ensures forall j in 0..len(m.Consumes) :: inStrs(primary.Consumes, m.Consumes[j])
+//@   loop 1: modifies primary.Consumes
+//@   loop 1: invariant len(primary.Consumes) >= old(len(primary.Consumes))
+//@   loop 1: invariant forall i in 0..old(len(primary.Consumes)) :: primary.Consumes[i] == old(primary.Consumes[i])
+//@   loop 1: invariant forall i in old(len(primary.Consumes))..len(primary.Consumes) :: inStrs(m.Consumes, primary.Consumes[i])
+//@   loop 1: invariant forall i in old(len(primary.Consumes))..len(primary.Consumes) :: forall i2 in 0..i :: primary.Consumes[i2] != primary.Consumes[i]
+//@   loop 1: invariant forall j in 0..idx :: inStrs(primary.Consumes, m.Consumes[j])
+//@   loop 2: modifies nothing
+//@   loop 2: invariant !found ==> forall i in 0..idx :: primary.Consumes[i] != v
+//@   loop 2: invariant found ==> inStrs(primary.Consumes, v)
+
+//@ func mergeProduces(primary, m)
+//@   requires primary != nil && m != nil && primary != m
+//@   modifies primary.Produces
+//@   ensures len(result) == 0
+//@   ensures len(primary.Produces) >= old(len(primary.Produces))
+//@   ensures forall i in 0..old(len(primary.Produces)) :: primary.Produces[i] == old(primary.Produces[i])
+//@   ensures forall i in old(len(primary.Produces))..len(primary.Produces) :: inStrs(m.Produces, primary.Produces[i])
+//@   ensures forall i in old(len(primary.Produces))..len(primary.Produces) :: forall i2 in 0..i :: primary.Produces[i2] != primary.Produces[i]
+//@   ensures forall j in 0..len(m.Produces) :: inStrs(primary.Produces, m.Produces[j])
+//@   loop 1: modifies primary.Produces
+//@   loop 1: invariant len(primary.Produces) >= old(len(primary.Produces))
+//@   loop 1: invariant forall i in 0..old(len(primary.Produces)) :: primary.Produces[i] == old(primary.Produces[i])
+//@   loop 1: invariant forall i in old(len(primary.Produces))..len(primary.Produces) :: inStrs(m.Produces, primary.Produces[i])
+//@   loop 1: invariant forall i in old(len(primary.Produces))..len(primary.Produces) :: forall i2 in 0..i :: primary.Produces[i2] != primary.Produces[i]
+//@   loop 1: invariant forall j in 0..idx :: inStrs(primary.Produces, m.Produces[j])
+//@   loop 2: modifies nothing
+//@   loop 2: invariant !found ==> forall i in 0..idx :: primary.Produces[i] != v
+//@   loop 2: invariant found ==> inStrs(primary.Produces, v)
+
+//@ func mergeSchemes(primary, m)
+//@   requires primary != nil && m != nil && primary != m
+//@   modifies primary.Schemes
+//@   ensures len(result) == 0
+//@   ensures len(primary.Schemes) >= old(len(primary.Schemes))
+//@   ensures forall i in 0..old(len(primary.Schemes)) :: primary.Schemes[i] == old(primary.Schemes[i])
+//@   ensures forall i in old(len(primary.Schemes))..len(primary.Schemes) :: inStrs(m.Schemes, primary.Schemes[i])
+//@   ensures forall i in old(len(primary.Schemes))..len(primary.Schemes) :: forall i2 in 0..i :: primary.Schemes[i2] != primary.Schemes[i]
+//@   ensures forall j in 0..len(m.Schemes) :: inStrs(primary.Schemes, m.Schemes[j])
+//@   loop 1: modifies primary.Schemes
+//@   loop 1: invariant len(primary.Schemes) >= old(len(primary.Schemes))
+//@   loop 1: invariant forall i in 0..old(len(primary.Schemes)) :: primary.Schemes[i] == old(primary.Schemes[i])
+//@   loop 1: invariant forall i in old(len(primary.Schemes))..len(primary.Schemes) :: inStrs(m.Schemes, primary.Schemes[i])
+//@   loop 1: invariant forall i in old(len(primary.Schemes))..len(primary.Schemes) :: forall i2 in 0..i :: primary.Schemes[i2] != primary.Schemes[i]
+//@   loop 1: invariant forall j in 0..idx :: inStrs(primary.Schemes, m.Schemes[j])
+//@   loop 2: modifies nothing
+//@   loop 2: invariant !found ==> forall i in 0..idx :: primary.Schemes[i] != v
+//@   loop 2: invariant found ==> inStrs(primary.Schemes, v)
+
+//@ fun inTags(s []spec.Tag, n string) bool = exists i in 0..len(s) :: s[i].Name == n
+
+//@ func mergeTags(primary, m)
+//@   requires primary != nil && m != nil && primary != m
+//@   modifies primary.Tags
+//@   ensures len(primary.Tags) >= old(len(primary.Tags))
+//@   ensures forall i in 0..old(len(primary.Tags)) :: primary.Tags[i] == old(primary.Tags[i])
+//@   ensures forall i in old(len(primary.Tags))..len(primary.Tags) :: exists j in 0..len(m.Tags) :: m.Tags[j] == primary.Tags[i]
+//@   ensures forall i in old(len(primary.Tags))..len(primary.Tags) :: forall i2 in 0..i :: primary.Tags[i2].Name != primary.Tags[i].Name
+//@   ensures forall j in 0..len(m.Tags) :: inTags(primary.Tags, m.Tags[j].Name)
+//@   ensures len(skipped) + (len(primary.Tags) - old(len(primary.Tags))) == len(m.Tags)
+//@   loop 1: modifies primary.Tags
+//@   loop 1: invariant len(primary.Tags) >= old(len(primary.Tags))
+//@   loop 1: invariant forall i in 0..old(len(primary.Tags)) :: primary.Tags[i] == old(primary.Tags[i])
+//@   loop 1: invariant forall i in old(len(primary.Tags))..len(primary.Tags) :: exists j in 0..len(m.Tags) :: m.Tags[j] == primary.Tags[i]
+//@   loop 1: invariant forall i in old(len(primary.Tags))..len(primary.Tags) :: forall i2 in 0..i :: primary.Tags[i2].Name != primary.Tags[i].Name
+//@   loop 1: invariant forall j in 0..idx :: inTags(primary.Tags, m.Tags[j].Name)
+//@   loop 1: invariant len(skipped) + (len(primary.Tags) - old(len(primary.Tags))) == idx
+//@   loop 2: modifies nothing
+//@   loop 2: invariant !found ==> forall i in 0..idx :: primary.Tags[i].Name != v.Name
+//@   loop 2: invariant found ==> inTags(primary.Tags, v.Name)
+
+//@ fun deq(a map[string][]string, b map[string][]string) bool = reflect.DeepEqual(a, b)
+// reflect.DeepEqual is reflexive on map[string][]string (no NaN, no func values inside)
+//@ axiom deqRefl: forall a map[string][]string :: deq(a, a)
+//@ fun inReqs(s []map[string][]string, x map[string][]string) bool = exists i in 0..len(s) :: deq(x, s[i])
+
+//@ func mergeSecurityRequirements(primary, m)
+//@   requires primary != nil && m != nil && primary != m
+//@   modifies primary.Security
+//@   ensures len(primary.Security) >= old(len(primary.Security))
+//@   ensures forall i in 0..old(len(primary.Security)) :: primary.Security[i] == old(primary.Security[i])
+//@   ensures forall i in old(len(primary.Security))..len(primary.Security) :: exists j in 0..len(m.Security) :: m.Security[j] == primary.Security[i]
+//@   ensures forall i in old(len(primary.Security))..len(primary.Security) :: forall i2 in 0..i :: !deq(primary.Security[i], primary.Security[i2])
+//@   ensures forall j in 0..len(m.Security) :: inReqs(primary.Security, m.Security[j])
+//@   ensures len(skipped) + (len(primary.Security) - old(len(primary.Security))) == len(m.Security)
+//@   loop 1: modifies primary.Security
+//@   loop 1: invariant len(primary.Security) >= old(len(primary.Security))
+//@   loop 1: invariant forall i in 0..old(len(primary.Security)) :: primary.Security[i] == old(primary.Security[i])
+//@   loop 1: invariant forall i in old(len(primary.Security))..len(primary.Security) :: exists j in 0..len(m.Security) :: m.Security[j] == primary.Security[i]
+//@   loop 1: invariant forall i in old(len(primary.Security))..len(primary.Security) :: forall i2 in 0..i :: !deq(primary.Security[i], primary.Security[i2])
+//@   loop 1: invariant forall j in 0..idx :: inReqs(primary.Security, m.Security[j])
+//@   loop 1: invariant len(skipped) + (len(primary.Security) - old(len(primary.Security))) == idx
+//@   loop 2: modifies nothing
+//@   loop 2: invariant !found ==> forall i in 0..idx :: !deq(v, primary.Security[i])
+//@   loop 2: invariant found ==> inReqs(primary.Security, v)
+
+// ---- scalar fields: fill if empty (C17)
+
+//@ fun fill(p string, m string) string = if p == "" then m else p
+
+//@ func mergeExternalDocs(primary, m)
+//@   requires primary != nil && m != nil
+//@   modifies *primary
+//@   ensures *primary == old(*primary) with {Description: fill(old(primary.Description), old(m.Description)), URL: fill(old(primary.URL), old(m.URL))}
+//@   ensures len(result) == 0
+
+//@ func mergeInfo(primary, m)
+//@   requires primary != nil && m != nil
+//@   requires primary.Extensions == nil || primary.Extensions != m.Extensions
+//@   requires primary.Contact != nil && m.Contact != nil ==> primary.Contact.Extensions == nil || primary.Contact.Extensions != m.Contact.Extensions
+//@   requires primary.License != nil && m.License != nil ==> primary.License.Extensions == nil || primary.License.Extensions != m.License.Extensions
+//@   requires primary.Contact != nil && m.Contact != nil && primary.Extensions != nil ==> primary.Extensions != primary.Contact.Extensions && primary.Extensions != m.Contact.Extensions
+//@   requires primary.License != nil && m.License != nil && primary.Extensions != nil ==> primary.Extensions != primary.License.Extensions && primary.Extensions != m.License.Extensions
+//@   requires primary.License != nil && m.License != nil && primary.Contact != nil && m.Contact != nil && primary.Contact.Extensions != nil ==> primary.Contact.Extensions != primary.License.Extensions && primary.Contact.Extensions != m.License.Extensions
+//@   requires primary != m && primary.Contact != m.Contact && primary.License != m.License
+//@   modifies *primary, *primary.Contact, *primary.License, map primary.Extensions, map primary.Contact.Extensions, map primary.License.Extensions
+//@   ensures primary.Description == fill(old(primary.Description), m.Description) && primary.Title == fill(old(primary.Title), m.Title)
+//@   ensures primary.TermsOfService == fill(old(primary.TermsOfService), m.TermsOfService) && primary.Version == fill(old(primary.Version), m.Version)
+//@   ensures primary.Contact == (if old(primary.Contact) == nil then m.Contact else old(primary.Contact))
+//@   ensures primary.License == (if old(primary.License) == nil then m.License else old(primary.License))
+//@   ensures old(primary.Contact) != nil && m.Contact != nil ==> primary.Contact.Name == fill(old(primary.Contact.Name), m.Contact.Name) && primary.Contact.URL == fill(old(primary.Contact.URL), m.Contact.URL) && primary.Contact.Email == fill(old(primary.Contact.Email), m.Contact.Email)
+//@   ensures old(primary.License) != nil && m.License != nil ==> primary.License.Name == fill(old(primary.License.Name), m.License.Name) && primary.License.URL == fill(old(primary.License.URL), m.License.URL)
+//@   ensures old(primary.Contact) != nil && m.Contact == nil ==> *primary.Contact == old(*primary.Contact)
+//@   ensures old(primary.License) != nil && m.License == nil ==> *primary.License == old(*primary.License)
+//@   ensures primary.Extensions == (if old(primary.Extensions) == nil then m.Extensions else old(primary.Extensions))
+//@   ensures old(primary.Extensions) != nil ==> forall k string :: (k in dom(primary.Extensions)) ==> (old(k in dom(primary.Extensions)) || old(k in dom(m.Extensions)))
+//@   ensures old(primary.Extensions) != nil ==> forall k string :: old(k in dom(primary.Extensions)) ==> k in dom(primary.Extensions) && primary.Extensions[k] == old(primary.Extensions[k])
+
+// ---- aspect safety: Mixin never panics, for every primary and mixins (no separation assumed) (C17)
+
+//@ func mergeSecurityDefinitions(primary, m)
+//@   aspect safety
+//@   requires primary != nil && m != nil && primary.SecurityDefinitions != nil
+//@   modifies map primary.SecurityDefinitions
+
+//@ func mergeDefinitions(primary, m)
+//@   aspect safety
+//@   requires primary != nil && m != nil && primary.Definitions != nil
+//@   modifies map primary.Definitions
+
+//@ func mergeParameters(primary, m)
+//@   aspect safety
+//@   requires primary != nil && m != nil && primary.Parameters != nil
+//@   modifies map primary.Parameters
+
+//@ func mergeResponses(primary, m)
+//@   aspect safety
+//@   requires primary != nil && m != nil && primary.Responses != nil
+//@   modifies map primary.Responses
+
+//@ func mergePaths(primary, m, opIDs, mixIndex)
+//@   aspect safety
+//@   requires primary != nil && m != nil && opIDs != nil && primary.Paths != nil && primary.Paths.Paths != nil
+//@   modifies map primary.Paths.Paths, map opIDs, heap spec.Operation
+
+//@ func mergeConsumes(primary, m)
+//@   aspect safety
+//@   requires primary != nil && m != nil
+//@   modifies primary.Consumes
+//@   loop 1: modifies primary.Consumes
+
+//@ func mergeProduces(primary, m)
+//@   aspect safety
+//@   requires primary != nil && m != nil
+//@   modifies primary.Produces
+//@   loop 1: modifies primary.Produces
+
+//@ func mergeSchemes(primary, m)
+//@   aspect safety
+//@   requires primary != nil && m != nil
+//@   modifies primary.Schemes
+//@   loop 1: modifies primary.Schemes
+
+//@ func mergeTags(primary, m)
+//@   aspect safety
+//@   requires primary != nil && m != nil
+//@   modifies primary.Tags
+//@   loop 1: modifies primary.Tags
+
+//@ func mergeSecurityRequirements(primary, m)
+//@   aspect safety
+//@   requires primary != nil && m != nil
+//@   modifies primary.Security
+//@   loop 1: modifies primary.Security
+
+//@ func mergeExtensions(primary, m)
+//@   aspect safety
+//@   modifies map primary
+//@   ensures result == (if primary == nil then m else primary)
+
+//@ func mergeExternalDocs(primary, m)
+//@   aspect safety
+//@   requires primary != nil && m != nil
+//@   modifies *primary
+
+//@ func mergeInfo(primary, m)
+//@   aspect safety
+//@   requires primary != nil && m != nil
+//@   modifies *primary, *primary.Contact, *primary.License, heap spec.Extensions
+
+//@ func mergeSwaggerProps(primary, m)
+//@   aspect safety
+//@   requires primary != nil && m != nil
+//@   modifies primary.Extensions, primary.Host, primary.BasePath, primary.Info, primary.ExternalDocs, heap spec.Info, heap spec.ContactInfo, heap spec.License, heap spec.ExternalDocumentation, heap spec.Extensions
+
+//@ func initPrimary(primary)
+//@   requires primary != nil
+//@   modifies primary.SecurityDefinitions, primary.Security, primary.Produces, primary.Consumes, primary.Tags, primary.Schemes, primary.Paths, primary.Definitions, primary.Parameters, primary.Responses, primary.Paths.Paths
+//@   ensures primary.SecurityDefinitions != nil && primary.Paths != nil && primary.Paths.Paths != nil && primary.Definitions != nil && primary.Parameters != nil && primary.Responses != nil
+//@   ensures old(primary.Definitions) != nil ==> primary.Definitions == old(primary.Definitions)
+//@   ensures old(primary.Parameters) != nil ==> primary.Parameters == old(primary.Parameters)
+//@   ensures old(primary.Responses) != nil ==> primary.Responses == old(primary.Responses)
+//@   ensures old(primary.SecurityDefinitions) != nil ==> primary.SecurityDefinitions == old(primary.SecurityDefinitions)
+//@   ensures old(primary.Paths) != nil ==> primary.Paths == old(primary.Paths) && (old(primary.Paths.Paths) != nil ==> primary.Paths.Paths == old(primary.Paths.Paths))
+//@   ensures old(primary.Definitions) == nil ==> fresh(primary.Definitions) && len(primary.Definitions) == 0
+
+//@ func Mixin(primary, mixins)
+//@   aspect safety
+//@   requires primary != nil && (forall i in 0..len(mixins) :: mixins[i] != nil)
+//@   modifies heap spec.Swagger, heap spec.Paths, heap spec.Info, heap spec.ContactInfo, heap spec.License, heap spec.ExternalDocumentation, heap spec.Extensions, heap spec.Operation, heap map[string]spec.PathItem, heap spec.Definitions, heap map[string]spec.Parameter, heap map[string]spec.Response, heap map[string]*spec.SecurityScheme, heap map[string]bool
+//@   loop 1: invariant primary != nil && opIDs != nil && (forall i in 0..len(mixins) :: mixins[i] != nil)
+//@   loop 1: invariant primary.SecurityDefinitions != nil && primary.Paths != nil && primary.Paths.Paths != nil && primary.Definitions != nil && primary.Parameters != nil && primary.Responses != nil
+
+//@ func mergeSwaggerProps(primary, m)
+//@   uses safety for mergeInfo, mergeExtensions
+//@   requires primary != nil && m != nil && primary != m
+//@   modifies primary.Extensions, primary.Host, primary.BasePath, primary.Info, primary.ExternalDocs, heap spec.Info, heap spec.ContactInfo, heap spec.License, heap spec.ExternalDocumentation, heap spec.Extensions
+//@   ensures primary.Host == fill(old(primary.Host), old(m.Host)) && primary.BasePath == fill(old(primary.BasePath), old(m.BasePath))
+//@   ensures primary.Info == (if old(primary.Info) == nil then old(m.Info) else old(primary.Info))
+//@   ensures primary.ExternalDocs == (if old(primary.ExternalDocs) == nil then old(m.ExternalDocs) else old(primary.ExternalDocs))
+//@   ensures old(primary.ExternalDocs) != nil && old(m.ExternalDocs) != nil && old(primary.ExternalDocs) != old(m.ExternalDocs) ==> primary.ExternalDocs.Description == fill(old(primary.ExternalDocs.Description), old(m.ExternalDocs.Description)) && primary.ExternalDocs.URL == fill(old(primary.ExternalDocs.URL), old(m.ExternalDocs.URL))
+//@   ensures old(primary.ExternalDocs) != nil && old(m.ExternalDocs) == nil ==> *primary.ExternalDocs == old(*primary.ExternalDocs)
+//@   ensures primary.Extensions == (if old(primary.Extensions) == nil then old(m.Extensions) else old(primary.Extensions))
